@@ -2,4 +2,4 @@
 Carried by the multi-queue scheduler part (props/part_mq.py, kind 'sp'); theorems in coq/Props/C13.v."""
 from vlib.composite import Composite
 
-PROP = Composite("C13", ["mq"], n_quick=300, n_thorough=9000)
+PROP = Composite("C13", ["mq"], extra_props_files=["Props/C13_Examples.v"], n_quick=300, n_thorough=9000)
